@@ -600,7 +600,7 @@ fn setup_op() -> Op {
 
 fn gen_run_op(rng: &mut Rng, k: usize, allow_import: bool) -> Op {
     let (eff, eff_ev) = effects(rng, k);
-    let choice = rng.weighted(&[10, 45, 25, 4, 6, if allow_import { 10 } else { 0 }]);
+    let choice = rng.weighted(&[10, 45, 25, 4, 6, if allow_import { 10 } else { 0 }, 6]);
     match choice {
         0 => {
             // succeeding script
@@ -705,7 +705,32 @@ fn gen_run_op(rng: &mut Rng, k: usize, allow_import: bool) -> Op {
                 tags: vec!["failed-test".into()],
             }
         }
-        _ => gen_import_op(rng, k, &eff, &eff_ev),
+        5 => gen_import_op(rng, k, &eff, &eff_ev),
+        _ => {
+            // a `yield` at the top level of the chunk ends the run with the yielded value (fix 20565a0:
+            // the chunk's frame is popped as on a Return); code after it never runs
+            let (body, value, ev) = match rng.below(4) {
+                0 => (format!("yield {k}\nexport never_{k} = 1\n"), format!("ok:i{k}"), "ret".to_string()),
+                1 => (format!("x = [1, 2, (yield {k})]\nexport never_{k} = x\n"), format!("ok:i{k}"), "ss ret".to_string()),
+                2 => (format!("y = \"a{{(yield {k})}}b\"\nexport never_{k} = y\n"), format!("ok:i{k}"), "rs ret".to_string()),
+                _ => (format!("r = try\n  yield {k}\n  throw 'after'\ncatch e\n  'caught'\nr\n"), format!("ok:i{k}"), "ts:1:90 ret".to_string()),
+            };
+            Op {
+                kind: OpKind::Run,
+                text: format!("{eff}{body}"),
+                ref_text: None,
+                args: vec![],
+                events: format!("enter:0:0:k0 nf:8 {eff_ev}{ev}"),
+                runs_tests: true,
+                expect: "ok".into(),
+                err_contains: None,
+                ok_value: Some(value),
+                residue_class: String::new(),
+                adds_tests: 0,
+                gen_check: None,
+                tags: vec!["top-level-yield".into()],
+            }
+        }
     }
 }
 
@@ -2055,6 +2080,22 @@ fn main() {
         }
         let h = History { ops, limit_ms: 0, mod_dir: mod_dir_s.clone() };
         cx.run_history(&h, false, "sweep:imports");
+    }
+
+    // 1w. top-level `yield` interleaved with failing runs (F-C07-4 regression shape)
+    {
+        let mut r = Rng::new(17);
+        let mut ops = vec![setup_op()];
+        let mut k = 1000;
+        while ops.len() < 60 {
+            k += 1;
+            let op = gen_run_op(&mut r, k, false);
+            if op.tags.iter().any(|t| t == "top-level-yield" || t == "run-fail" || t == "run-caught") {
+                ops.push(op);
+            }
+        }
+        let h = History { ops, limit_ms: 0, mod_dir: mod_dir_s.clone() };
+        cx.run_history(&h, false, "sweep:top-level-yield-and-failing-runs");
     }
 
     // 1x. native functions under meta keys: every shape, uncaught and caught, repeated (the leak
